@@ -28,7 +28,7 @@ fn parts(t: Tier) -> Vec<Part> {
         Tier::Quick => (600_000, 180_000),
         Tier::Thorough => (8_000_000, 2_000_000),
     };
-    vec![tape("hide-reveal", a, 1500), tape("identity", b, 1300)]
+    vec![tape("hide-reveal", a, 1500), tape("identity", b, 1300), tape("related-secrets", a / 3, 1500)]
 }
 
 pub fn block_class(n: usize) -> &'static str {
@@ -177,6 +177,15 @@ fn check_identity(t: &mut Tape, cx: &mut Cx) -> Res {
 fn run_tape(part: &str, tape: &[u8], cx: &mut Cx) -> Res {
     let mut t = Tape::new(tape);
     match part {
+        "related-secrets" => {
+            // two round trips back to back on one thread that differ only in a related secret
+            let h1 = gen_hide(&mut t);
+            let s2 = related_secret(&mut t, &h1.secret);
+            let h2 = HideCase { avp: h1.avp.clone(), payload: h1.payload.clone(), secret: s2, rv: h1.rv, lp: h1.lp.clone(), ap: h1.ap };
+            check_hide_reveal(&h1, cx)?;
+            check_hide_reveal(&h2, cx)?;
+            check_hide_reveal(&h1, cx)
+        }
         "hide-reveal" => check_hide_reveal(&gen_hide(&mut t), cx),
         _ => check_identity(&mut t, cx),
     }
